@@ -33,7 +33,7 @@ Proof. apply (take_fields c s w a). Qed.
 Lemma inv2_weffect s w s' : inv2 s -> weffect c s w s' -> inv2 s'.
 Proof.
   intros HI He.
-  destruct He as [i a t rest Hsrc Hc Hb | Hsrc Hc | i Hsrc Hc Hb Hcl | ctl' Hcn
+  destruct He as [i a t rest Hsrc Hc Hb | Hsrc Hc | i Hsrc Hc Hb Hcl | ctl' Hcn Hdue Hsl Hsls
                  | eof a k0 v rest Hc Hs Hcl | eof k0 t r rest Hc Hb | dropped Hp Hnd Hnr Hnc Hwhy | eof a k0 v rest Hc Hs Hcl].
   - destruct HI as [A B]. split; simpl.
     + intros i'. destruct (Nat.eq_dec i' i) as [->|Hi]; upd_simpl; auto.
@@ -109,7 +109,7 @@ Qed.
 Lemma tags_weffect s w s' : w < par c -> tags_ok s -> weffect c s w s' -> tags_ok s'.
 Proof.
   intros Hw HI He.
-  destruct He as [i a t rest Hsrc Hc Hb | Hsrc Hc | i Hsrc Hc Hb Hcl | ctl' Hcn
+  destruct He as [i a t rest Hsrc Hc Hb | Hsrc Hc | i Hsrc Hc Hb Hcl | ctl' Hcn Hdue Hsl Hsls
                  | eof a k0 v rest Hc Hs Hcl | eof k0 t r rest Hc Hb | dropped Hp Hnd Hnr Hnc Hwhy | eof a k0 v rest Hc Hs Hcl];
     try (apply tags_same with s; auto; fail).
   - eapply tags_push with (k0 := k0) (v0 := v); eauto.
@@ -155,7 +155,7 @@ Proof.
   destruct He as [i x Hi Hcl | i Hi Hcl | k t v rest Hb | k v w eof a rest Hb Hcap Hcl Hw Hc Hs0 | | | w s' Hw He
                  | w a todo Hw Hc | Hcl Had Hcd | t Ht];
     try (apply ctags_same with s; auto; fail).
-  - destruct He as [i a t rest Hsrc Hc Hb | Hsrc Hc | i Hsrc Hc Hb Hcl | ctl' Hcn
+  - destruct He as [i a t rest Hsrc Hc Hb | Hsrc Hc | i Hsrc Hc Hb Hcl | ctl' Hcn Hdue Hsl Hsls
                    | eof a k0 v rest Hc Hs0 Hcl | eof k0 t r rest Hc Hb | dropped Hp Hnd Hnr Hnc Hwhy | eof a k0 v rest Hc Hs0 Hcl];
       try (apply ctags_same with s; auto; fail).
     + intros i' t' a' Hin. simpl in Hin. destruct (Nat.eq_dec i' i) as [->|Hne]; upd_simpl_in Hin; [|eapply HI; eauto].
@@ -179,7 +179,7 @@ Proof.
   { intros E i t a Hin. rewrite E in Hin. eapply HI; eauto. }
   destruct He as [i x Hi Hcl | i Hi Hcl | k t v rest Hb | k v w eof a rest Hb Hcap Hcl Hw Hc Hs0 | | | w s' Hw He
                  | w a todo Hw Hc | Hcl Had Hcd | t Ht]; try (apply Hsame; reflexivity).
-  - destruct He as [i a t rest Hsrc Hc Hb | Hsrc Hc | i Hsrc Hc Hb Hcl | ctl' Hcn
+  - destruct He as [i a t rest Hsrc Hc Hb | Hsrc Hc | i Hsrc Hc Hb Hcl | ctl' Hcn Hdue Hsl Hsls
                    | eof a k0 v rest Hc Hs0 Hcl | eof k0 t r rest Hc Hb | dropped Hp Hnd Hnr Hnc Hwhy | eof a k0 v rest Hc Hs0 Hcl];
       try (apply Hsame; reflexivity).
     + intros i' t' a' Hin. simpl in Hin. destruct (Nat.eq_dec i' i) as [->|Hne]; upd_simpl_in Hin; [|eapply HI; eauto].
